@@ -125,12 +125,15 @@ PROPERTIES = {
                                      "bodies are abstract JSON documents decoded by a model of protojson.Unmarshal (reset, JSON/proto names, unknown key => error, category checks)",
                                      "TS server (S2) and OpenAPI (S3) halves are not encoded in this check"]),
     "C10": E_ROUNDTRIP(
-        overlay={"gen/roundtrip/zz_verif_c10.go": "harness/c10/c10_errors.go"},
-        harnesses=[dict(func="VerifC10HandlerError", reach=["C10/handler/decided", "C10/handler/hook-wrote", "C10/client/mapped"], quick=dict(budget=300, parts=8), thorough=dict(budget=1200, parts=16))],
+        overlay={"gen/roundtrip/zz_verif_c10.go": "harness/c10/c10_errors.go", "gen/roundtrip/zz_verif_c06v.go": "harness/c06/c06_violations_e.go@roundtrip"},
+        init=[MOD + "/http", "verifmod/gen/roundtrip", "buf.build/gen/go/bufbuild/protovalidate/protocolbuffers/go/buf/validate"],
+        harnesses=[dict(func="VerifC10HandlerError", reach=["C10/handler/decided", "C10/handler/hook-wrote", "C10/client/mapped"], quick=dict(budget=300, parts=8), thorough=dict(budget=1200, parts=16)),
+                   # rule violations of a bound request: every violation the validator produced is listed (incl. several per field path)
+                   dict(func="VerifC06ValidationErrorBody", reach=["C06/validation-body/decided"], quick=dict(budget=100), thorough=dict(budget=300))],
         bounds_text={"quick": "handler error in {plain, *Error, *ValidationError(1 violation), custom *NotFoundError, wrapped *Error, empty *ValidationError} with symbolic strings <= 4 x request content type in 6 values x error hook in {none, returns nil, returns message} x {sets header, calls WriteHeader(401|404|409|503), writes body} (all combinations); response fed to the emitted client's handleErrorResponse"},
         assumptions=E_ASSUMPTIONS + ["responses are observed through a recording ResponseWriter that freezes status and headers at the first WriteHeader/Write (net/http's documented rule)",
                                      "binary transport: decoding the bytes of one message type as another type is outside the model (client mapping checked only where types coincide)",
-                                     "request/header validation failures (BindingMiddleware exits), field paths of rule violations, and the TS client/server are not yet part of this check"]),
+                                     "rule violations: the conversion of a protovalidate error into the 400 body is decided (1-2 violations, message- and field-level paths); header/URL-binding exits are C02/C09's; the TS client/server are not part of this check"]),
     "C06": dict(
         groups=[
             dict(mode="G", load_pkgs=["./internal/openapiv3"], pkgpath=MOD + "/internal/openapiv3", test_pkg="./internal/openapiv3", test_pkgname="openapiv3",
